@@ -3,7 +3,7 @@ import core, os, hashlib, re
 LEVEL = 'exploration'
 RULE = ('a deterministic scenario suite (callbacks on 1-13 parameter and variadic functions, conditional and sequenced stubs incl. the no-match panic, pointer/value method mocks, interface mocks with Apply and As().Return, '
         'out-parameters in the caller frame at every stack depth of fresh goroutines, values with nil pointers, nil and typed-nil interfaces, pointer cycles through structs, unexported fields, String/Error methods that panic) is run with one seed in separate processes under logging off, '
-        'OpenDebug(), OpenTrace(), both, and GOOM_DEBUG=1 in the environment; every call, argument, result and panic is written to a transcript and the transcripts must be byte-identical; '
+        'OpenDebug(), OpenTrace(), both, GOOM_DEBUG=1 in the environment, Close* before anything was opened, opened-and-closed again, closed-and-reopened; every call, argument, result and panic is written to a transcript and the transcripts must be byte-identical; '
         'distinct = logging configurations compared + transcript line kinds')
 
 
@@ -13,7 +13,8 @@ def run(ctx):
     files.update(core.dir_files('harness/c19', 'zzverif/c19'))
     b = ctx.build('c19', core.MODPATH + '/zzverif/c19', files)
     nscen = '40' if not ctx.thorough else '1500'
-    modes = [('off', {}), ('debug', {}), ('trace', {}), ('debug+trace', {}), ('env', {'GOOM_DEBUG': '1'})]
+    modes = [('off', {}), ('debug', {}), ('trace', {}), ('debug+trace', {}), ('env', {'GOOM_DEBUG': '1'}),
+             ('close-first', {}), ('toggled-off', {}), ('reopened', {})]
     trans = {}
     for mode, extra in modes:
         tp = os.path.join(ctx.scratch, 'transcript-%s.txt' % mode)
